@@ -145,7 +145,10 @@ def drive(case):
     try:
         if case['kind'] == 'resolve':
             resolver = MoleculeResolver.from_string(case['s'], legacy=case.get('legacy', True))
-            _, final = resolver.resolve_all()
+            meta, final = resolver.resolve_all()
+            # the coarse graph that comes back with the molecule: node key -> fragname (for the own-fragment clause)
+            case['_coarse'] = [[k, d.get('fragname')] for k, d in meta.nodes(data=True)
+                               if isinstance(k, int) and isinstance(d.get('fragname'), str)]
         else:
             st = _random.getstate()
             try:
@@ -294,7 +297,67 @@ def squash_chain(rng):
     return '{' + base + '}.{' + ','.join(frs) + '}'
 
 
+def squash_hcap(rng):
+    """a single-hydrogen fragment (#H=[$h][H]) bonded by a descriptor to an atom that two, three or four fragments
+    share through `!` (chain or star), the cap written on any of the copies; sometimes two caps"""
+    n = rng.randint(2, 4)
+    star = n >= 3 and rng.random() < 0.4
+    names = ['A', 'B', 'C', 'D'][:n]
+    ncaps = 1 if rng.random() < 0.8 else 2
+    room = 4 - 1 - ncaps
+    subs = []
+    for i in range(n):
+        if room > 0 and rng.random() < 0.7:
+            subs.append(rng.choice(SQ_SUBS))
+            room -= 1
+        else:
+            subs.append(('', ''))
+    caps = {}
+    for c in range(ncaps):
+        j = rng.randrange(n)
+        caps.setdefault(j, []).append('[$h%d]' % c)
+    frs = []
+    for i, (pre, post) in enumerate(subs):
+        cap = ''.join(caps.get(i, []))
+        if star:
+            bangs = '[!]' * (n - 1) if i == 0 else '[!]'
+        else:
+            bangs = '[!]' if i in (0, n - 1) else '[!][!]'
+        # descriptors directly after the shared atom; a substituent before it (first fragment) or after it
+        if i == 0:
+            frs.append('#%s=%sC%s%s' % (names[i], pre, bangs, cap))
+        else:
+            frs.append('#%s=C%s%s%s' % (names[i], bangs, cap, post))
+    hnames = []
+    for c in range(ncaps):
+        hn = 'H%d' % c if ncaps > 1 else rng.choice(['H', 'Hter'])
+        hnames.append(hn)
+        frs.append('#%s=[$h%d][H]' % (hn, c))
+    # coarse graph: chain A-B-C-D or star A(-B)(-C)(-D); every cap a branch on the fragment that carries it
+    where = {}
+    for j, ds in caps.items():
+        for d in ds:
+            where.setdefault(j, []).append(hnames[int(d[3:-1])])
+
+    def node(i):
+        return '[#%s]' % names[i] + ''.join('([#%s])' % h for h in where.get(i, []))
+    if star:
+        base = node(0) + ''.join('(%s)' % node(i) for i in range(1, n - 1)) + node(n - 1)
+    else:
+        base = ''.join(node(i) for i in range(n))
+    if rng.random() < 0.3:      # the hydrogen fragment first in the sequence, as in the documented end-cap pattern
+        j = next(iter(where))
+        h = where[j].pop(0)
+        if not star and j == 0:
+            base = '[#%s]' % h + ''.join(node(i) for i in range(n))
+        else:
+            where[j].insert(0, h)
+    return '{' + base + '}.{' + ','.join(frs) + '}'
+
+
 def gen_case(rng):
+    if rng.random() < 0.07:
+        return {'kind': 'resolve', 'cls': 'squash-hcap', 's': squash_hcap(rng), 'legacy': True}
     if rng.random() < 0.08:
         return {'kind': 'resolve', 'cls': 'squash-chain', 's': squash_chain(rng), 'legacy': True}
     r = rng.random()
@@ -508,7 +571,22 @@ def in_table_or_star(G):
 
 
 # ------------------------------------------------------------------------------ second oracle (Python)
-def py_holds_c09(before, final):
+def own_fragment(d, coarse):
+    """mirror of HydroCheck.own_fragment"""
+    mp, fid, fn = d.get('mapping'), d.get('fragid'), d.get('fragname')
+    if not (isinstance(mp, list) and mp and isinstance(fid, list) and len(fid) == 1 and isinstance(fid[0], int)
+            and not isinstance(fid[0], bool) and isinstance(fn, str)):
+        return False
+    for m in mp:
+        if not (isinstance(m, (tuple, list)) and len(m) >= 1 and m[0] == fn):
+            return False
+    if coarse:
+        names = dict((k, n) for k, n in coarse)
+        return names.get(fid[0]) == fn
+    return True
+
+
+def py_holds_c09(before, final, coarse=()):
     """mirror of HydroCheck.holds_C09, used only when the Coq side cannot be built (common.run_prop)"""
     from pysmiles.smiles_helper import valence
 
@@ -552,17 +630,19 @@ def py_holds_c09(before, final):
         nb = list(final[n])
         if len(nb) != 1 or half(final.edges[n, nb[0]]) != 2:
             return 3
-        if 'mapping' in d:
-            continue
         a = final.nodes[nb[0]]
+        same = True
         for k in ('fragid', 'fragname', 'weight'):
             if k in d and k in a:
                 if d[k] != a[k]:
-                    return 4
+                    same = False
             elif k in d and d[k] is None and k not in a:
                 continue
             elif (k in d) != (k in a):
-                return 4
+                same = False
+        # a hydrogen written in a fragment may keep its own membership, but then consistently (own fragment)
+        if not same and not ('mapping' in d and own_fragment(d, coarse)):
+            return 4
     for n, d in before.nodes(data=True):
         if is_h(d) and 'mapping' in d:
             same = [x for _, x in final.nodes(data=True) if is_h(x) and x.get('mapping') == d['mapping']
@@ -595,7 +675,7 @@ class C09(common.Prop):
     fail_text = {1: 'a non-hydrogen atom whose heavy-atom bonds fit its valence does not carry exactly the missing hydrogens',
                  2: 'the bond orders of a completed atom do not add up to the smallest fitting valence',
                  3: 'a hydrogen is not bonded to exactly one atom by a single bond',
-                 4: 'a completed hydrogen does not carry its anchor\'s fragid / fragname / weight',
+                 4: 'a hydrogen neither carries its anchor\'s fragid / fragname / weight nor is consistently a fragment of its own',
                  5: 'an explicitly written hydrogen was lost',
                  6: 'an explicitly written hydrogen did not keep its own fragid / fragname / weight',
                  7: 'an atom is bonded to itself (self-loop in the returned molecule)'}
@@ -607,7 +687,10 @@ class C09(common.Prop):
                 '{[#A][#H]}.{#A=CC[$],#H=[$][H]}', '{[#A]1[#A][#A]1}.{#A=[$]cc[$]}',
                 '{[#A]=[#B]}.{#A=[$]c1ccc2c(c1)[$],#B=[$]cccc2[$]}',
                 '{[#A][#B][#C]}.{#A=CC[!],#B=[!]C([!])O,#C=[!]CN}', '{[#A][#B][#C]}.{#A=OC[!],#B=[!]C[!],#C=[!]CN}',
-                '{[#A][#B][#C][#D]}.{#A=CC[!],#B=[!]C[!],#C=[!]C([!])C,#D=[!]CCl}']]
+                '{[#A][#B][#C][#D]}.{#A=CC[!],#B=[!]C[!],#C=[!]C([!])C,#D=[!]CCl}',
+                # a single-hydrogen fragment capping a shared atom (kept copy, removed copy, three-fold shared atom)
+                '{[#H][#A][#B]}.{#H=[$][H],#A=OC[$][!],#B=[!]CC}', '{[#A][#B][#H]}.{#A=OC[!],#B=[!]C([$])C,#H=[$][H]}',
+                '{[#A]([#B])([#B])[#H]}.{#A=OC[!][!][$],#B=[!]CC,#H=[$][H]}', '{[#A][#B]}.{#A=OC([H])[!],#B=[!]CC}']]
         out.append({'kind': 'sample', 'cls': 'corpus', 's': '{#A=[$]CC[$],#B=[$]C(C)C[$]}', 'react': {'$': 1.0},
                     'seed': 1, 'w': 60})
         out += [{'kind': 'resolve', 'cls': 'corpus', 's': s, 'legacy': True} for s in ZERO_WEIGHT[:5]]
@@ -666,7 +749,8 @@ class C09(common.Prop):
                'exc': call.get('exc'), 'later_exc': exc,
                'final': lit.obs_graph(final) if final is not None else None,
                'summary': {'before': summarise(before), 'final': summarise(final)},
-               'py_code': py_holds_c09(before, final) if final is not None else 0}
+               'coarse': case.get('_coarse', []),
+               'py_code': py_holds_c09(before, final, case.get('_coarse', [])) if final is not None else 0}
         return out
 
     def python_oracle(self, case, impl):
@@ -691,17 +775,18 @@ class C09(common.Prop):
         return case['cls']
 
     def describe(self, case):
-        return {k: v for k, v in case.items() if k != 'cls'}
+        return {k: v for k, v in case.items() if k not in ('cls', '_coarse')}
 
     def coq_case(self, case, impl):
         if 'helpers' in impl:
-            return ('{| c_skip := true; c_before := []; c_car := None; c_after := None; c_final := None; c_extra := %s; c_nocorr := false |}'
+            return ('{| c_skip := true; c_before := []; c_car := None; c_after := None; c_final := None; c_extra := %s; c_nocorr := false; c_coarse := [] |}'
                     % lit.lst(impl['helpers']))
         if 'skip' in impl:
-            return '{| c_skip := true; c_before := []; c_car := None; c_after := None; c_final := None; c_extra := []; c_nocorr := false |}'
-        return ('{| c_skip := false; c_before := %s; c_car := %s; c_after := %s; c_final := %s; c_extra := []; c_nocorr := %s |}'
+            return '{| c_skip := true; c_before := []; c_car := None; c_after := None; c_final := None; c_extra := []; c_nocorr := false; c_coarse := [] |}'
+        return ('{| c_skip := false; c_before := %s; c_car := %s; c_after := %s; c_final := %s; c_extra := []; c_nocorr := %s; c_coarse := %s |}'
                 % (impl['before'], lit.opt(impl['car'], lambda x: x), lit.opt(impl['after'], lambda x: x),
-                   lit.opt(impl['final'], lambda x: x), lit.b(impl.get('nocorr', False))))
+                   lit.opt(impl['final'], lambda x: x), lit.b(impl.get('nocorr', False)),
+                   lit.lst(['(%s, %s)' % (lit.z(k), lit.s(n)) for k, n in impl.get('coarse', [])])))
 
 
 PROP = C09()
